@@ -30,6 +30,15 @@ Emit == RoleSeparation /\
         PrintT("TERM " \o ToJson([rs |-> rs, plan |-> [n \in 1..Len(Plan) |-> [role |-> Plan[n].role, rcp |-> Plan[n].rcp, size |-> DrawSize(Plan[n].role)]],
                                    file |-> FileOf(rs), armored |-> Armor(FileOf(rs))]))
 
+\* C06 for the command line's own secret: ten word draws, none of them a draw of the file, the file's plan unchanged behind them
+CliPlan == CliPassphrasePlan
+CliRoleSeparation ==
+  /\ Len(CliPlan) = CliWords + Len(DrawPlan(<<CliAutoRecipient>>))
+  /\ \A n \in 1..CliWords : CliPlan[n].role = "word" /\ CliPlan[n].rcp = 0 - n
+  /\ \A n \in 1..Len(CliPlan) : \A m \in 1..Len(CliPlan) : (n # m /\ CliPlan[n].role = "word") => CliPlan[n].rcp # CliPlan[m].rcp
+  /\ [n \in 1..Len(DrawPlan(<<CliAutoRecipient>>)) |-> CliPlan[CliWords + n]] = DrawPlan(<<CliAutoRecipient>>)
+ASSUME CliRoleSeparation
+ASSUME PrintT("CLIPLAN " \o ToJson([n \in 1..Len(CliPlan) |-> [role |-> CliPlan[n].role, rcp |-> CliPlan[n].rcp, size |-> DrawSize(CliPlan[n].role)]]))
 ASSUME PrintT("READING " \o ToJson(ReadingTerms))
 ASSUME PrintT("FORGE " \o ToJson([x |-> ForgedStanza([k |-> "X", id |-> "k", wf |-> 0]),
                                   e |-> ForgedStanza([k |-> "E", id |-> "k", wf |-> 0]),
